@@ -72,7 +72,7 @@ def gen_world(rng, kind: str) -> dict:
         "enforce_deadlines": True if kind == "deadline" else rng.random() < 0.65,
         "retract": rng.random() < 0.3,
         "release_taskgraphs": False,
-        "lookahead": rng.choice([0, 0, 0, 6, 30]),
+        "lookahead": rng.choice([0, 0, 6, 30]),
         "disc": disc,
         "plan_ahead": -1,
     }
@@ -177,7 +177,7 @@ def gen_world(rng, kind: str) -> dict:
         if t["state"] == "SCHEDULED":
             release = min(release, t["prev"]["sched_at"])
         t["release"] = release
-        if t["state"] == "RELEASED" and flags["lookahead"] > 0 and rng.random() < 0.3:
+        if t["state"] == "RELEASED" and flags["lookahead"] > 0 and rng.random() < 0.4:
             t["release"] = now + rng.randint(1, 6)  # released in the future (inside / outside the lookahead)
         r = rng.random()
         if kind == "deadline":
@@ -189,8 +189,13 @@ def gen_world(rng, kind: str) -> dict:
         else:
             d = now + rng.randint(fastest + 1, fastest + 10)
         d = max(0, min(d, dl_hi))
-        if flags["enforce_deadlines"] and t["state"] in ("RUNNING", "SCHEDULED"):
-            d = max(d, t["prev"]["time"] + strats[t["prev"]["s"]]["runtime"])  # an enforcing planner placed it
+        if t["state"] in ("RUNNING", "SCHEDULED"):
+            # reachable states only: the window loop of the earlier batching call kept the strategy only if
+            # `sched_at + runtime <= deadline` (with or without enforcement); an enforcing planner moreover
+            # placed it at a cell that meets the deadline
+            d = max(d, t["prev"]["sched_at"] + strats[t["prev"]["s"]]["runtime"])
+            if flags["enforce_deadlines"]:
+                d = max(d, t["prev"]["time"] + strats[t["prev"]["s"]]["runtime"])
         t["deadline"] = d
     graphs = [{"name": f"G{ti}", "tasks": [t], "edges": []} for ti, t in enumerate(tasks)]
     return {
@@ -249,20 +254,39 @@ def corpus() -> list[dict]:
     # C10-TETRI-B2: without enforcement a task already past its deadline is in no batch: no decision at all
     out.append(world([task("Late", 0, "RELEASED", 2), task("B", 0, "RELEASED", 30)], [{"name": "PR0", "strats": [st(3)]}], seed=4, enforce_deadlines=False))
     # C10-TETRI-B3: the capacity rows end at now + greatest *BatchTask* deadline (5), the variables at
-    # now + greatest task deadline (30); a RUNNING task holds the CPU on [0, 8): both batches start at 6
+    # now + greatest task deadline (9); a RUNNING task holds the CPU on [0, 8): both batches start at 6
+    # (the instance of the Lean theorem C10_TetriBatch.horizon_counterexample)
     out.append(
         world(
             [
                 task("A", 0, "RELEASED", 4),
                 task("B", 0, "RELEASED", 4),
                 task("C", 0, "RELEASED", 5),
-                task("D", 0, "RELEASED", 30),
+                task("D", 0, "RELEASED", 9),
                 task("R", 1, "RUNNING", 5, prev={"w": 0, "s": 0, "batch": 0, "time": 0, "sched_at": 0, "remaining": 8}),
             ],
             [{"name": "PR0", "strats": [st(3, 2)]}, {"name": "PR1", "strats": [st(8)]}],
             cpu=1,
             seed=5,
             enforce_deadlines=False,
+        )
+    )
+    # C10-TETRI-B4: retracting mode; S (scheduled for t=5 by the call at t=0, deadline 2) is re-offered but can no
+    # longer start at now=1 in time, so it is in no batch and keeps its placement; R holds the CPU until 5, N is
+    # placed at 5 on top of S
+    out.append(
+        world(
+            [
+                task("S", 0, "SCHEDULED", 2, prev={"w": 0, "s": 0, "batch": 0, "time": 5, "sched_at": 0, "remaining": 2}),
+                task("N", 0, "RELEASED", 20, release=1),
+                task("R", 1, "RUNNING", 9, release=1, prev={"w": 0, "s": 0, "batch": 1, "time": 1, "sched_at": 1, "remaining": 4}),
+            ],
+            [{"name": "PR0", "strats": [st(2)]}, {"name": "PR1", "strats": [st(4)]}],
+            cpu=1,
+            now=1,
+            seed=8,
+            enforce_deadlines=False,
+            retract=True,
         )
     )
     # a SCHEDULED batch of two that must be re-placed (non-retracting) next to a new task
@@ -434,15 +458,26 @@ def oracle_c10(w, rec) -> list[str]:
     pa_rows = None
     if built and f["plan_ahead"] == -1:
         pa_rows = w.now + max(d for _, _, d in built)
+    # re-offered SCHEDULED tasks (retracting mode) that got no decision and are in no BatchTask: they keep
+    # their earlier placement although the model never saw them
+    ignored = {
+        u
+        for u in offered
+        if w.tasks[u].state.name == "SCHEDULED" and u not in names and rec.get("tvars") is not None and u not in in_batch
+    }
     for _, _wid, s0, _e0, _rq, _ms, _s in occ:
         for wk_id, tot in cap.items():
             use = {}
-            for _k, wid2, s, e, rq, _m, _s2 in occ:
+            involved = set()
+            for _k, wid2, s, e, rq, ms_, _s2 in occ:
                 if wid2 == wk_id and s <= s0 < e:
+                    involved.update(ms_)
                     for rn, q in rq.items():
                         use[rn] = use.get(rn, 0) + q
             if any(q > tot.get(rn, 0) for rn, q in use.items()):
-                if pa_rows is not None and s0 > pa_rows:
+                if involved & ignored:
+                    bad.append("capacity exceeded at a planned instant (a re-offered SCHEDULED task that is a member of no BatchTask keeps its earlier placement, which the new plan ignores)")
+                elif pa_rows is not None and s0 > pa_rows:
                     bad.append("capacity exceeded at a planned instant (after now + the greatest BatchTask deadline, where the capacity rows end; the variables reach now + the greatest task deadline)")
                 else:
                     bad.append("capacity exceeded at a planned instant")
